@@ -5,6 +5,7 @@ package main
 import (
 	"fmt"
 	"go/types"
+	"hash/crc32"
 	"strings"
 	"time"
 
@@ -582,9 +583,16 @@ func (e *Engine) dispatch(s *State, f *Frame, fn *ssa.Function, args []Value, bi
 	case "(*bytes.Buffer).Next":
 		o, id := bufObj(s, args[0])
 		n := args[1].(*Term)
+		// b.buf[b.off : b.off+n] after clamping n to Len(): a negative n panics
+		ok, forks := e.mustHold(s, Le(CI(0), n, true), "bytes.Buffer.Next: slice bounds out of range (negative count) at "+site)
+		if !ok {
+			return forks
+		}
+		o, id = bufObj(s, args[0])
 		m := Ite(Lt(unreadLen(o), n, true), unreadLen(o), n)
 		set(&SliceV{Obj: id, Off: o.R, Len: m, Cap: m, View: id, Epoch: o.Epoch})
 		o.R = Add(o.R, m)
+		return forks
 	case "(*bytes.Buffer).ReadByte":
 		_, id := bufObj(s, args[0])
 		return e.readFork(s, f, id, CI(1), func(st *State, data *Bytes) {
@@ -707,9 +715,37 @@ func (e *Engine) dispatch(s *State, f *Frame, fn *ssa.Function, args []Value, bi
 	case "bytes.TrimRight", "bytes.TrimLeft", "bytes.Trim", "bytes.TrimSpace", "strings.TrimRight", "strings.TrimLeft", "strings.Trim", "strings.TrimSpace",
 		"bytes.TrimPrefix", "bytes.TrimSuffix", "strings.TrimPrefix", "strings.TrimSuffix", "bytes.TrimFunc", "bytes.TrimRightFunc", "bytes.TrimLeftFunc":
 		e.trim(s, name, args, x, site)
-	case "hash/crc32.ChecksumIEEE":
+	case "hash/crc32.ChecksumIEEE", "hash/crc32.Checksum":
+		// Checksum(data, tab): the table argument is taken to be the IEEE table (the only one this repository uses)
 		sl := args[0].(*SliceV)
 		set(e.crc32(s, sliceContent(s, sl)))
+	case "hash/crc32.Update":
+		// Update(crc, tab, p) == continue the IEEE CRC from crc over p
+		crc := args[0].(*Term)
+		sl := args[2].(*SliceV)
+		d := sliceContent(s, sl).Norm()
+		if d.Len.IsConst() && d.Len.Val == 0 {
+			set(crc)
+			break
+		}
+		if crc.IsConst() && crc.Val == 0 {
+			set(e.crc32(s, d))
+			break
+		}
+		if d.Vec != nil && crc.IsConst() && allConstTerms(d.Vec) {
+			raw := make([]byte, len(d.Vec))
+			for i, b := range d.Vec {
+				raw[i] = byte(b.Val)
+			}
+			set(C(32, uint64(crc32.Update(uint32(crc.Val), crc32.IEEETable, raw))))
+			break
+		}
+		if d.Vec != nil && len(d.Vec) <= e.crcExact {
+			set(Bin("bvxor", crc32Steps(Bin("bvxor", crc, C(32, 0xFFFFFFFF)), d.Vec), C(32, 0xFFFFFFFF)))
+			break
+		}
+		s.imprec = append(s.imprec, "hash/crc32.Update over symbolic data: result havocked")
+		set(e.freshVar("crc32upd", 32))
 	case "fmt.Errorf", "errors.New":
 		s.allocs = append(s.allocs, AllocRec{Size: CI(64), Site: site})
 		set(e.freshErr(name))
@@ -1240,8 +1276,27 @@ type crcCall struct {
 
 var crcLog []crcCall
 
+func allConstTerms(v []*Term) bool {
+	for _, b := range v {
+		if !b.IsConst() {
+			return false
+		}
+	}
+	return true
+}
+
 func crc32Model(data []*Term) *Term {
-	crc := C(32, 0xFFFFFFFF)
+	if allConstTerms(data) {
+		raw := make([]byte, len(data))
+		for i, b := range data {
+			raw[i] = byte(b.Val)
+		}
+		return C(32, uint64(crc32.ChecksumIEEE(raw)))
+	}
+	return Bin("bvxor", crc32Steps(C(32, 0xFFFFFFFF), data), C(32, 0xFFFFFFFF))
+}
+
+func crc32Steps(crc *Term, data []*Term) *Term {
 	for _, b := range data {
 		crc = Bin("bvxor", crc, ZExt(b, 32))
 		for i := 0; i < 8; i++ {
@@ -1250,7 +1305,7 @@ func crc32Model(data []*Term) *Term {
 			crc = Ite(lsb, Bin("bvxor", sh, C(32, 0xEDB88320)), sh)
 		}
 	}
-	return Bin("bvxor", crc, C(32, 0xFFFFFFFF))
+	return crc
 }
 
 func (e *Engine) crc32(s *State, data *Bytes) *Term {
